@@ -308,6 +308,26 @@ def desugar(t: Any) -> Any:
     if not isinstance(t, tuple):
         return t
     t = tuple(desugar(x) for x in t)
+    if t and t[0] == "call" and len(t) == 4 and isinstance(t[1], tuple) and t[1] and t[1][0] == "global":
+        # np.interp(x=a, xp=b, fp=c) is np.interp(a, b, c)
+        if t[1][1] == "numpy.interp" and t[3]:
+            kw = dict(t[3])
+            pos = list(t[2])
+            for k in ("x", "xp", "fp")[len(pos):]:
+                if k in kw:
+                    pos.append(kw.pop(k))
+                else:
+                    break
+            t = ("call", t[1], tuple(pos), tuple(sorted(kw.items())))
+        # functools.reduce(operator.mul, (a, b, c)[, init]) is ((init *) a * b) * c
+        if t[1][1] in ("functools.reduce", "reduce") and not t[3] and len(t[2]) in (2, 3) and t[2][0][0] == "global" and t[2][1][0] in ("tuple", "list"):
+            op = {"operator.mul": "*", "operator.add": "+", "operator.sub": "-", "operator.truediv": "/", "operator.and_": "&", "operator.or_": "|"}.get(t[2][0][1])
+            items = list(t[2][1][1]) if len(t[2][1]) == 2 and isinstance(t[2][1][1], tuple) and (not t[2][1][1] or isinstance(t[2][1][1][0], tuple)) else list(t[2][1][1:])
+            if op is not None and items:
+                acc = t[2][2] if len(t[2]) == 3 else items.pop(0)
+                for x in items:
+                    acc = ("binop", op, acc, x)
+                return acc
     if t and t[0] == "call" and len(t) == 4 and isinstance(t[1], tuple) and t[1] and t[1][0] == "global" and not t[3]:
         name, args = ALIASES.get(t[1][1], t[1][1]), t[2]
         if name in COMPARE_FUNCS and len(args) == 2:
